@@ -7,12 +7,14 @@
      member verdicts --(test_file_crc / extract_archive / print_archive)--> result flag
      result flag     --(do_command, main: return !do_command(...))------->  exit status
 
-   Three ways of compiling this file (plan/maincli.json, "defs"):
+   Ways of compiling this file (plan/maincli.json, "defs"):
 
      VG_MC_L      woven src/extract.c alone, legacy route (--apply-loop-contracts): the member loops of
                   test_file_crc / extract_archive / print_archive are closed by the loop invariants of
                   contracts/src/extract.c.spec (blocks under #ifdef VG_MC_L) - ANY number of members; pre/post
-                  are assumed / asserted around the real call here.
+                  are assumed / asserted around the real call here.  With VG_MC_PU in addition (group
+                  maincli.prompt_user, dfcc route): prompt_user's contract, which maincli.extract_archive uses
+                  in place of the call, is enforced.
      VG_MC_FULL   UNWOVEN src/extract.c + src/main.c, plain route: the real main(argc, argv) on a small symbolic
                   command line and an archive of at most VG_MEMBERS members (anchor-independent, bounded).
      VG_MC_MAIN   UNWOVEN src/main.c alone, plain route: test_file_crc / extract_archive / print_archive are
